@@ -580,7 +580,7 @@ def kinds(tier):
     ]
 
 
-REGISTERED = False
+REGISTERED = True
 LEVEL_TEXT = ("Generated histories are converted in three independent ways and "
               "round-tripped through real git and 2a repositories; tree SHAs "
               "are compared with a plain dulwich computation from the tree "
